@@ -53,6 +53,13 @@ EXPLANATION = (
     "axis per cell. The size max(1, round(f n)), vote shares and "
     "correlation means are values and are not decided.")
 
+EXPLANATION += (
+    " Added after the seeded rounds: the vote counter's integer type is "
+    'sized from the iteration count of the loop that increments it '
+    "(R-CAP); the label list indexed by the ranking is the caller's "
+    'list or the one returned with the aggregated votes.'
+)
+
 RULE_TEXT = (
     "one obligation per draw, per block, per indexed comprehension, per "
     "provenance relation, per kernel function x configuration (type and "
